@@ -199,6 +199,7 @@ func (a *APIClient) MatchingVersions(ctx context.Context, vk VersionKey) ([]Vers
 }
 
 func (a *APIClient) getBundledVersion(name string) (bundledVersion, bool) {
+	verifYield("getBundledVersion:before-lock")
 	a.bundledVersionsMu.Lock()
 	defer a.bundledVersionsMu.Unlock()
 	bv, ok := a.bundledVersions[name]
@@ -266,6 +267,7 @@ func (a *APIClient) npmRequirements(root VersionKey, reqs *pb.Requirements_NPM) 
 		allDeps[parentName] = parentBundle
 	}
 	// Add all of the new bundles
+	verifYield("npmRequirements:before-store")
 	a.bundledVersionsMu.Lock()
 	defer a.bundledVersionsMu.Unlock()
 	for name, bundle := range allDeps {
